@@ -243,19 +243,25 @@ pub fn programs(t: Tier) -> Vec<String> {
     for tp in crate::props::c09::templates() {
         let k = (0..3).filter(|i| tp.contains(&format!("${}", i))).count();
         for mask in 0u32..(1 << k) {
-            let mut s = tp.to_string();
-            for i in 0..k {
-                let lit = ["(1)", "('a')", "(true)"][i];
-                let var = ["p", "q", "w"][i];
-                let text = if tp.starts_with("f'") && mask & (1 << i) != 0 { ["1", "2", "true"][i] } else if mask & (1 << i) != 0 { lit } else { var };
-                s = s.replace(&format!("${}", i), text);
+            // two sets of literals: truthy ones, and falsy ones with the bare keywords
+            for set in 0..2 {
+                if set == 1 && mask == 0 {
+                    continue;
+                }
+                let mut s = tp.to_string();
+                for i in 0..k {
+                    let lit = [["(1)", "('a')", "(true)"], ["false", "(0)", "true"]][set][i];
+                    let var = ["p", "q", "w"][i];
+                    let text = if tp.starts_with("f'") && mask & (1 << i) != 0 { ["1", "2", "true"][i] } else if mask & (1 << i) != 0 { lit } else { var };
+                    s = s.replace(&format!("${}", i), text);
+                }
+                out.push(s);
             }
-            out.push(s);
         }
     }
     // logic trees
     let mut memo = Vec::new();
-    let atoms = ["x", "y", "f()", "1"];
+    let atoms = ["x", "y", "f()", "1", "true", "false"];
     for n in 0..=t.pick(2, 3) {
         out.extend(logic_exprs(n, &atoms, &mut memo));
     }
@@ -689,14 +695,25 @@ pub fn run(t: Tier) -> i32 {
     rep.set("model_edges", json!(g.4));
     rep.set("model_edges_covered_by_real_traces", json!(g.5));
     drop(g);
-    // a drift between the stack-effect table and the VM is a machinery error, not a verdict
+    // A drift between the stack-effect table and the VM on its own is a machinery error, not a
+    // verdict. When the real VM also shows what the property forbids (a block that ends with another
+    // number of values than one), the VM has changed its stack discipline: that is the verdict, and
+    // the drift is only its echo.
     if rep.acc.violations.keys().any(|k| k.starts_with("MACHINERY")) {
-        for (k, (n, vs)) in &rep.acc.violations {
-            if k.starts_with("MACHINERY") {
-                eprintln!("MACHINERY ERROR: {} ({} cases) e.g. {:?}", k, n, vs.first().map(|v| (&v.case, &v.expected, &v.observed)));
+        let real = rep.acc.violations.keys().any(|k| k.starts_with("execution "));
+        let drift: Vec<String> = rep.acc.violations.keys().filter(|k| k.starts_with("MACHINERY")).cloned().collect();
+        for k in &drift {
+            let (n, vs) = &rep.acc.violations[k];
+            eprintln!("{}: {} ({} cases) e.g. {:?}", if real { "NOTE (echo of the violation below)" } else { "MACHINERY ERROR" }, k, n, vs.first().map(|v| (&v.case, &v.expected, &v.observed)));
+        }
+        if !real {
+            return 2;
+        }
+        for k in &drift {
+            if let Some((n, _)) = rep.acc.violations.remove(k) {
+                *rep.acc.counters.entry(format!("{} (reported through the execution violations)", k)).or_insert(0) += n;
             }
         }
-        return 2;
     }
     rep.assumptions = vec![
         "the trace hook (feature rscel_verif) reports the VM's real pc and stack height".into(),
